@@ -66,6 +66,17 @@ _REDUCERS = frozenset(
 )
 
 
+# position of `axis` among the positional arguments when it is not the second one
+_AXIS_POSITION = {
+    np.linalg.norm: 2,
+    np.quantile: 2,
+    np.percentile: 2,
+    np.nanquantile: 2,
+    np.nanpercentile: 2,
+    np.take: 2,
+}
+
+
 def _FeShape(operands) -> tuple:
     """The (Ne, nPg) an operation runs at: the broadcast of its FeArray operands'."""
     shapes = set()
@@ -248,9 +259,19 @@ class FeArray(np.ndarray):
         feShape = _FeShape(args) or _FeShape(kwargs.values())
         # numpy calls a dispatched reduction on the stripped array, so the method wrapper never
         # sees it and the axis has to be read here instead
-        if func in _REDUCERS:
-            # np.linalg.norm(x, ord, axis): its second positional argument is `ord`
-            pos = 2 if func is np.linalg.norm else 1
+        if func is np.trace:
+            # np.trace(a, offset, axis1, axis2) consumes two axes
+            axes = (
+                kwargs.get("axis1", args[2] if len(args) > 2 else 0),
+                kwargs.get("axis2", args[3] if len(args) > 3 else 1),
+            )
+            if not _KeepsFeAxes(axes, np.ndim(args[0])):
+                feShape = ()
+        elif func in _REDUCERS or func in _AXIS_POSITION or "axis" in kwargs:
+            # where the axis is among the positional arguments: np.linalg.norm(x, ord, axis),
+            # np.quantile(a, q, axis), ... ; a function working along an element or Gauss-point
+            # axis (take, sort, cumsum, ...) does not return a field either
+            pos = _AXIS_POSITION.get(func, 1)
             axis = kwargs.get("axis", args[pos] if len(args) > pos else None)
             if not _KeepsFeAxes(axis, np.ndim(args[0])):
                 feShape = ()
